@@ -1254,7 +1254,7 @@ def run_cases(run, cases, scales, note_names):
         run.violation({"kind": "correspondence", "site": what, "stream": c["stream"]}, {
             "broken": "correspondence model/implementation on %s (the theorems of Props/C03.v speak about Sched/Event.v, which no longer "
                       "describes this code on the input below; the input is outside the domain the documentation-oracle judges)" % what,
-            "case": {k: c[k] for k in ("tpb", "nticks", "muted", "mode", "defaults", "events", "direct")},
+            "case": {k: c[k] for k in ("tpb", "nticks", "muted", "mode", "defaults", "events", "direct", "changes", "replay_period") if k in c},
             "observed": {"trace": res["trace"], "raise": res["raise"], "event": res["event"]},
             "coq_term": terms[i][:3000], "python": snippet(c)}, found_input=False)
     agree_terms = sum(1 for m in meta if m[2] == "agree")
